@@ -37,7 +37,8 @@ def keylike(task, names, out=None):
     """Tuples that look like keys of this plan: (name, int, ...) with name among the plan's names."""
     if out is None:
         out = set()
-    if isinstance(task, tuple) and task and isinstance(task[0], str) and task[0] in names and len(task) >= 2 and all(isinstance(x, (int, tuple, str)) for x in task[1:]) and ishashable(task):
+    if isinstance(task, tuple) and task and isinstance(task[0], str) and task[0] in names and len(task) >= 2 and all(isinstance(x, (int, tuple, str)) for x in task[1:]) and ishashable(task) \
+            and not (len(task) == 3 and task[1] == "_dep"):      # (fused name, "_dep", i): placeholder bound by Fused._execute_task inside the embedded sub-graph
         out.add(task)
     if isinstance(task, (tuple, list)):
         for t in task:
@@ -149,6 +150,10 @@ def task_equal(a, b):
         if isinstance(a, np.ndarray):
             return np.array_equal(a, b)
         r = a == b
+        if isinstance(r, (bool, np.bool_)) and not r and not isinstance(a, (str, bytes, int, float, bool, type(None))) and type(a).__eq__ is object.__eq__:
+            # objects without value equality (function wrappers of the readers ...): compare their content
+            from dask.base import tokenize
+            return tokenize(a) == tokenize(b)
         return bool(r) if isinstance(r, (bool, np.bool_)) else True
     except Exception:
         return True
